@@ -603,7 +603,33 @@ def execute_c16(trace, ctx):
             except Exception as e:
                 ctx.violate(P, "topology-raised", f"read_topology({k}) raised {type(e).__name__}: {e}", key=k)
                 return
+        if "ops" in trace and trace.get("overwrite", True):
+            # in-place update: a second topology of the SAME byte length is read from its own path and written over the path
+            # A was read from; reading that path again must give the second topology, not A
+            a2 = _same_length_variant(a_text)
+            if a2 is not None and a2 != a_text:
+                p2 = os.path.join(d, "A2.itp")
+                with open(p2, "w") as f:
+                    f.write(a2)
+                try:
+                    f2 = ItpFile(p2)
+                    f2.write(pa)
+                    del f2
+                    over = _read_image(seam, pa)
+                    again = ItpFile(pa)
+                    pd = os.path.join(d, "D.itp")
+                    again.write(pd)
+                    del again
+                    texts["A2"] = a2
+                    texts["D"] = _read_image(seam, pd)
+                    ctx.probe("path_overwritten_and_read_again")
+                except Exception as e:
+                    ctx.violate(P, "history-raised", f"overwriting A with a same-length topology and reading it again raised "
+                                                     f"{type(e).__name__}: {e}", key="overwrite")
+                    return
     ctx.nontrivial = True
+    if "D" in texts:
+        compare_files(ctx, P, texts["A2"], texts["D"], "A2 written over A, read again, written (in-place update)")
     cl = classify(a_text)
     kinds = set()
     for items in cl[1].values():
@@ -634,6 +660,32 @@ def execute_c16(trace, ctx):
             ctx.violate(P, "first-read-differs", "the first read of the file does not return the file's name/atoms/bonds")
     ctx.op("history", "ok" if ok1 and ok2 else "diff")
     ctx.sig.append(tuple(sorted(kinds)) + (len(cl[2]),))
+
+
+def _same_length_variant(text):
+    """The same topology with one atom name changed to another name of the same length (first [ atoms ] content line)."""
+    lines = text.split("\n")
+    sec = None
+    for i, l in enumerate(lines):
+        st = l.strip()
+        if st.startswith("[") and "]" in st:
+            sec = st[1:st.rindex("]")].strip()
+            continue
+        if sec == "atoms" and st and not st.startswith(";") and not st.startswith("#"):
+            content = l.split(";")[0]
+            toks = content.split()
+            if len(toks) >= 5:
+                name = toks[4]
+                new = ("Z" if name[0] != "Z" else "Y") + name[1:]
+                # replace the 5th token in place (same length)
+                pos = 0
+                for k in range(5):
+                    pos = content.index(toks[k], pos)
+                    if k < 4:
+                        pos += len(toks[k])
+                lines[i] = l[:pos] + new + l[pos + len(name):]
+                return "\n".join(lines)
+    return None
 
 
 def _read_image(seam, path):
